@@ -90,4 +90,9 @@ PLAN = {
               kind="bounded", bound="size <= 2, <= size+1 pushes per cycle, 3 consumes", replay=False, covers=3, timeout=900),
         ],
     }],
+    # public-API test of the drain contract: confirms a violation when the harnesses no longer compile against a restructured
+    # Drain / Reservoir (exit 2 otherwise), replays a failed drain harness
+    "witnesses": [
+        {"match": r"(kani-codegen|c16_rate|c16_drain|Drain|reservoir)", "name": "Drain / AtomicSamplingReservoir::consume", "src": "witness_drain.rs", "crate": "metrics-util", "file": "metrics-util/src/storage/reservoir.rs"},
+    ],
 }
